@@ -22,7 +22,7 @@ __CPROVER_loop_invariant(/* the imports visited so far are merged */ i.rev == th
 __CPROVER_decreases(i.rev ? i.pos : g_nimp - i.pos)'''}, nloops=1)
 TEMPLATE = r'''
 #include "xv_shim.h"
-typedef struct XalanDOMString XalanDOMString;
+typedef struct XalanDOMString XalanDOMString; typedef size_t XalanDOMString_size_type;
 @@BLOCK eMatchScore@@
 typedef int XPath_eMatchScore;
 enum { F_none, F_testElementNamespaceOnly2, F_testElementQName2, F_testElementNCName2, F_testElementTotallyWild2 };
@@ -38,6 +38,32 @@ void h_initialize2(void)
     __CPROVER_assert(eMatchScoreNone < eMatchScoreNodeTest && eMatchScoreNodeTest < eMatchScoreNSWild && eMatchScoreNSWild < eMatchScoreQName && eMatchScoreQName < eMatchScoreOther,
                      "match scores are ordered like the XSLT default priorities: * (-0.5) below prefix:* (-0.25) below a name (0)");
     initialize2(&s, n, l);
+}
+/* --- the name test of one token of elements="..." (initialize with a name-test string) --- */
+enum { CONTENT_EMPTY = 0, CONTENT_NAME, CONTENT_PREFIX, CONTENT_LOCAL, CONTENT_NS, CONTENT_OTHER };
+size_t g_nt_len, g_nt_colon; bool g_nt_star0, g_nt_star_after_colon, g_valid_name, g_valid_prefix, g_valid_local, g_ns_declared;
+bool g_problem; bool g_init2_called; int g_init2_ns, g_init2_local; int g_init2_score;
+size_t xv_nt_length(int s) __CPROVER_requires(s == CONTENT_NAME) __CPROVER_assigns() __CPROVER_ensures(__CPROVER_return_value == g_nt_len) ;
+bool xv_is_star_at(int s, size_t pos) __CPROVER_requires(s == CONTENT_NAME && pos < g_nt_len) __CPROVER_assigns()
+__CPROVER_ensures((pos == 0 ==> __CPROVER_return_value == g_nt_star0) && ((pos != 0 && pos == g_nt_colon + 1) ==> __CPROVER_return_value == g_nt_star_after_colon) && (__CPROVER_return_value == true || __CPROVER_return_value == false)) ;
+size_t xv_colon_index(int s) __CPROVER_requires(s == CONTENT_NAME) __CPROVER_assigns() __CPROVER_ensures(__CPROVER_return_value == g_nt_colon && g_nt_colon <= g_nt_len) ;
+bool xv_valid_ncname(int content) __CPROVER_requires(content == CONTENT_NAME || content == CONTENT_PREFIX || content == CONTENT_LOCAL) __CPROVER_assigns()
+__CPROVER_ensures(__CPROVER_return_value == (content == CONTENT_NAME ? g_valid_name : content == CONTENT_PREFIX ? g_valid_prefix : g_valid_local)) ;
+int xv_substr_content(int s, size_t pos, size_t n) __CPROVER_requires(s == CONTENT_NAME && pos <= g_nt_len && n <= g_nt_len - pos) __CPROVER_assigns()
+__CPROVER_ensures(__CPROVER_return_value == ((pos == 0 && n == g_nt_colon) ? CONTENT_PREFIX : (pos == g_nt_colon + 1 && n == g_nt_len - g_nt_colon - 1) ? CONTENT_LOCAL : CONTENT_OTHER)) ;
+int xv_ns_for_prefix(int content)
+__CPROVER_requires(/* only a prefix that is written in the name test is resolved: an unprefixed name is in NO namespace, whatever the stylesheet's default namespace (XSLT 2.4, XPath 2.3) */ content == CONTENT_PREFIX)
+__CPROVER_assigns() __CPROVER_ensures(__CPROVER_return_value == (g_ns_declared ? CONTENT_NS : 0)) ;
+void xv_problem(void) __CPROVER_requires(1) __CPROVER_assigns(g_problem) __CPROVER_ensures(g_problem == true) ;
+XPath_eMatchScore xv_initialize2(Self* s, int ns, int local) __CPROVER_requires(g_init2_called == false) __CPROVER_assigns(g_init2_called, g_init2_ns, g_init2_local)
+__CPROVER_ensures(g_init2_called == true && g_init2_ns == ns && g_init2_local == local && __CPROVER_return_value == g_init2_score) ;
+@@FN initialize4@@
+void h_initialize4(void)
+{
+    size_t l, c; bool a, b, d, e, f, g; int sc; __CPROVER_assume(l >= 1 && l < ((size_t)1 << 40) && c <= l);
+    g_nt_len = l; g_nt_colon = c; g_nt_star0 = XV_BOOL(a); g_nt_star_after_colon = XV_BOOL(b); g_valid_name = XV_BOOL(d); g_valid_prefix = XV_BOOL(e); g_valid_local = XV_BOOL(f); g_ns_declared = XV_BOOL(g);
+    g_problem = false; g_init2_called = false; g_init2_ns = -1; g_init2_local = -1; g_init2_score = sc;
+    Self s; initialize4(&s, 0, CONTENT_NAME, 0, 0);
 }
 /* --- merging the imports: iterators over m_imports as (position, direction) --- */
 typedef struct { long pos; int rev; } XV_IT;
@@ -70,6 +96,20 @@ void h_merge(void) { long n; g_nimp = n; g_ws = 0; g_kd = 0; merge_imports(); }
 R = [(r'(\w+)\.empty\(\)', r'xv_empty(\1)', None),
      (r'm_testFunction2 = &NodeTester::(\w+);', r'self->m_testFunction2 = F_\1;', 4),
      (r'm_target(\w+) = &(\w+);', r'self->m_target\1 = \2;', None)]
+R4 = ['SCOPE',
+      (r'theNameTest\.length\(\)', 'xv_nt_length(theNameTest)', 1),
+      (r'theNameTest\[([^\]]+)\] == XPath_PSEUDONAME_ANY\[0\]', r'xv_is_star_at(theNameTest, \1)', 2),
+      (r'(?<![\w.>])indexOf\(theNameTest, XalanUnicode_charColon\)', 'xv_colon_index(theNameTest)', 1),
+      (r'XalanQName_isValidNCName\((\w+)\)', r'xv_valid_ncname(\1)', 3),
+      (r'const XPathConstructionContext_GetCachedString\s+\w+\(theConstructionContext\);', '', (0, 3)),
+      (r'theConstructionContext\.problem\([^;]*;', 'xv_problem();', (3, 5)),
+      (r'XalanDOMString&\s+theScratchString = scratchGuard\.get\(\);', 'int theScratchString = CONTENT_OTHER;', 1),
+      (r'theScratchString\.assign\(theNameTest, ([^;]+?), ([^;]+?)\);', r'theScratchString = xv_substr_content(theNameTest, \1, \2);', 2),
+      (r'const XalanDOMString\* const\s+theNamespaceURI =\s*thePrefixResolver\.getNamespaceForPrefix\((\w+)\);', r'const int theNamespaceURI = xv_ns_for_prefix(\1);', (1, 2)),
+      (r'theConstructionContext\.getPooledString\(\*?(\w+)\)', r'(\1)', (2, 5)),
+      (r'\bs_emptyString\b', 'CONTENT_EMPTY', None),
+      (r'(?<![\w.>])initialize\(', 'xv_initialize2(self, ', (3, 5)),
+      (r'eMatchScore\s+theResult = eMatchScoreNone;', 'XPath_eMatchScore theResult = eMatchScoreNone;', 1)]
 UNIT = Unit(
     name='c13_spacedecl',
     props=['C13'],
@@ -86,12 +126,27 @@ __CPROVER_ensures(/* "prefix:name": the name score; tests namespace and local na
     (!g_ns_empty && !g_local_empty) ==> (__CPROVER_return_value == eMatchScoreQName && self->m_testFunction2 == F_testElementQName2 && self->m_targetNamespace == g_ns && self->m_targetLocalName == g_local))
 __CPROVER_ensures(/* "name": the name score; tests the local name of an element in no namespace */
     (g_ns_empty && !g_local_empty) ==> (__CPROVER_return_value == eMatchScoreQName && self->m_testFunction2 == F_testElementNCName2 && self->m_targetLocalName == g_local))'''),
+        Fn(XP, r'^XPath::NodeTester::initialize\(\s*XPathConstructionContext&\s+theConstructionContext,\s*const XalanDOMString&\s+theNameTest,', 'initialize4',
+           'XPath_eMatchScore initialize4(Self* self, void* theConstructionContext, int theNameTest, void* thePrefixResolver, void* theLocator)', rules=R4, nloops=0,
+           contract='''__CPROVER_requires(theNameTest == CONTENT_NAME && g_nt_len >= 1 && g_nt_len < ((size_t)1 << 40) && g_nt_colon <= g_nt_len && g_problem == false && g_init2_called == false)
+__CPROVER_assigns(g_problem, g_init2_called, g_init2_ns, g_init2_local)
+__CPROVER_ensures(/* "*" matches every element */ (g_nt_len == 1 && g_nt_star0) ==> (g_init2_called && g_init2_ns == CONTENT_EMPTY && g_init2_local == CONTENT_EMPTY && __CPROVER_return_value == g_init2_score))
+__CPROVER_ensures(/* an unprefixed name is a name in NO namespace (never the default namespace of the stylesheet) */
+    (!(g_nt_len == 1 && g_nt_star0) && g_nt_colon == g_nt_len) ==> (g_valid_name ? (g_init2_called && g_init2_ns == CONTENT_EMPTY && g_init2_local == CONTENT_NAME && !g_problem) : (!g_init2_called && g_problem && __CPROVER_return_value == eMatchScoreNone)))
+__CPROVER_ensures(/* prefix:* and prefix:name use the namespace the prefix is bound to; an undeclared prefix or a bad name is reported */
+    (!(g_nt_len == 1 && g_nt_star0) && g_nt_colon < g_nt_len) ==>
+        ((!g_ns_declared || !g_valid_prefix) ? (!g_init2_called && g_problem)
+         : (g_nt_colon == g_nt_len - 2 && g_nt_star_after_colon) ? (g_init2_called && g_init2_ns == CONTENT_NS && g_init2_local == CONTENT_EMPTY && !g_problem)
+         : g_valid_local ? (g_init2_called && g_init2_ns == CONTENT_NS && g_init2_local == CONTENT_LOCAL && !g_problem) : (!g_init2_called && g_problem)))'''),
     ],
     template=TEMPLATE,
-    jobs=[Job('initialize2', 'h_initialize2', enforce=['initialize2'], replace=['xv_empty'], reach='all', timeout=120, min_obligations=4),
+    jobs=[Job('initialize4', 'h_initialize4', enforce=['initialize4'], replace=['xv_nt_length', 'xv_is_star_at', 'xv_colon_index', 'xv_valid_ncname', 'xv_substr_content', 'xv_ns_for_prefix', 'xv_problem', 'xv_initialize2'], reach='all', timeout=300, min_obligations=5),
+          Job('initialize2', 'h_initialize2', enforce=['initialize2'], replace=['xv_empty'], reach='all', timeout=120, min_obligations=4),
           Job('merge_imports', 'h_merge', enforce=['merge_imports'], replace=['xv_append_whitespaceElements', 'xv_append_keyDeclarations', 'xv_release_whitespaceElements', 'xv_release_keyDeclarations'],
               loop_contracts=True, reach=['entry:merge_imports', 'exit:merge_imports'], timeout=300, min_obligations=6)],
     mutants=[
+        Mutant('unprefixed_name_in_default_namespace', XP, r'(                theResult = initialize\(\s*)s_emptyString,(\s*theConstructionContext\.getPooledString\(theNameTest\)\);)', r'                const XalanDOMString* const     theNamespaceURI =\n                    thePrefixResolver.getNamespaceForPrefix(s_emptyString);\n\n\1theNamespaceURI == 0 ? s_emptyString : theConstructionContext.getPooledString(*theNamespaceURI),\2', expect='only a prefix'),
+        Mutant('prefix_star_keeps_local_star', XP, r'(// It.s of the form "NCName:\*"\s*theResult = initialize\(\s*theConstructionContext\.getPooledString\(\*theNamespaceURI\),\s*)s_emptyString\);', r'\1theConstructionContext.getPooledString(theNameTest));', expect='prefix:*'),
         Mutant('nswild_scored_as_star', XP, r'(m_testFunction2 = &NodeTester::testElementNamespaceOnly2;\s*return )eMatchScoreNSWild;', r'\1eMatchScoreNodeTest;', expect='prefix:*'),
         Mutant('ncname_tested_as_wild', XP, r'(else if \(theLocalName\.empty\(\) == false\)\s*\{\s*m_testFunction2 = &NodeTester::)testElementNCName2;', r'\1testElementTotallyWild2;', expect='local name'),
         Mutant('imports_merged_lowest_first', ST, r'const StylesheetVectorType::iterator    theEnd = m_imports\.end\(\);\s*StylesheetVectorType::iterator          i = m_imports\.begin\(\);',
